@@ -3,7 +3,7 @@
    The trie is an abstract content-addressed node store: [H] hashes a node, [children] lists the
    hashes it refers to; hypotheses: the two equality tests decide equality and H is injective
    (collision-free hash).  [sc_sync] = decode (ComputeProperties) then ApplyBlockStateChange. *)
-From ZC Require Import Model.StateChange Proof.StateChange.
+From ZC Require Import Model.StateChange Proof.StateChange Gen.StateChangeApply Proof.StateChangeSrc.
 
 Section C28.
   Variables (node hash bhash : Type).
@@ -88,8 +88,73 @@ Section C28.
       sc_complete node hash heqb H children db' r ->
       forall n, sc_reach node hash heqb H children db' r n <-> sc_reach node hash heqb H children dbH r n.
   Proof. exact (sc_accepted_complete_equal node hash bhash heqb bheqb H children heqb_spec bheqb_spec H_inj). Qed.
+  (* The proposed repair (after MergeDB every node a new node refers to must be available, else the
+     set is malformed): an accepted change set then gives a complete state, every key of which can
+     be read, provided the local db holds whole states; honest change sets still pass. *)
+  Theorem C28_repaired_accepted_is_complete :
+    forall local b cs db' r,
+      sc_sync_fix node hash bhash heqb bheqb H children local b cs = ScOk db' r ->
+      sc_closed node hash heqb H children local ->
+      sc_complete node hash heqb H children db' r.
+  Proof. exact (sc_fix_accepted_complete node hash bhash heqb bheqb H children heqb_spec bheqb_spec H_inj). Qed.
+
+  Theorem C28_repaired_honest_change_reproduces :
+    forall prev_db bh root new b,
+      new <> [] -> NoDup (map H new) ->
+      (forall n, In n new -> sc_reach_d node hash heqb H children new root (length new) n) ->
+      (exists r, In r new /\ H r = root) ->
+      sb_hash b = bh -> sb_state b = root -> sb_count b = length new ->
+      sc_complete node hash heqb H children (new ++ prev_db) root ->
+      sc_sync_fix node hash bhash heqb bheqb H children prev_db b (sc_new_change node hash bhash bh root new)
+      = ScOk (new ++ prev_db) root.
+  Proof. exact (sc_fix_honest node hash bhash heqb bheqb H children heqb_spec bheqb_spec H_inj). Qed.
+
+  (* For the apply that the source tree contains (sc_refs_checked is regenerated from
+     chaincore/block/entity.go on every run): integrity always; completeness of what is accepted
+     when the source has the reference check. *)
+  Theorem C28_source_apply_integrity :
+    forall local b cs db' r dbH,
+      sc_sync_src node hash bhash heqb bheqb H children local b cs = ScOk db' r ->
+      sc_complete node hash heqb H children dbH (sb_state b) ->
+      r = sb_state b /\
+      (forall n, In n (sc_nodes cs) -> sc_reach node hash heqb H children dbH r n) /\
+      (forall n, sc_reach node hash heqb H children db' r n -> sc_reach node hash heqb H children dbH r n).
+  Proof. exact (sc_src_integrity node hash bhash heqb bheqb H children heqb_spec bheqb_spec H_inj). Qed.
+
+  Theorem C28_source_apply_complete :
+    forall local b cs db' r,
+      sc_sync_src node hash bhash heqb bheqb H children local b cs = ScOk db' r ->
+      sc_closed node hash heqb H children local ->
+      if sc_refs_checked then sc_complete node hash heqb H children db' r else True.
+  Proof. exact (sc_src_complete node hash bhash heqb bheqb H children heqb_spec bheqb_spec H_inj). Qed.
 End C28.
+
+(* The full statement: whatever is accepted is a complete state (every key of the executed state
+   can be read), for every node store with decidable, injective hashing. *)
+Definition C28_full_statement : Prop :=
+  forall (node hash bhash : Type) (heqb : hash -> hash -> bool) (bheqb : bhash -> bhash -> bool)
+         (H : node -> hash) (children : node -> list hash),
+    (forall a b, heqb a b = true <-> a = b) -> (forall a b, bheqb a b = true <-> a = b) ->
+    (forall a b, H a = H b -> a = b) ->
+    forall local b cs db' r,
+      sc_sync node hash bhash heqb bheqb H children local b cs = ScOk db' r ->
+      sc_closed node hash heqb H children local ->
+      (exists dbH, sc_complete node hash heqb H children dbH (sb_state b)) ->
+      sc_complete node hash heqb H children db' r.
+
+(* It is false of ApplyBlockStateChange as found: a change set with the right block hash, root
+   and count in which a new node is withheld and replaced by an old node that the new ones refer
+   to passes every check; the block is marked synced with a state whose withheld part cannot be
+   read (witness: previous state 1 -> {2,3}, new state 4 -> {2,5}, change set {4, 2}). *)
+Theorem C28_full_statement_refuted : ~ C28_full_statement.
+Proof. exact sc_full_refuted. Qed.
+
 Print Assumptions C28_honest_change_reproduces.
+Print Assumptions C28_repaired_accepted_is_complete.
+Print Assumptions C28_repaired_honest_change_reproduces.
+Print Assumptions C28_source_apply_integrity.
+Print Assumptions C28_source_apply_complete.
+Print Assumptions C28_full_statement_refuted.
 Print Assumptions C28_accepted_only_if_all_checks_pass.
 Print Assumptions C28_wrong_block_hash_rejected.
 Print Assumptions C28_wrong_state_root_rejected.
